@@ -416,6 +416,53 @@ def run_proc_case(case, acc):
     acc.case(case, nontrivial, viols)
 
 
+# ---- one program looking at several kernels: PROCFS_PATH moved between procfs trees with different field counts ----
+
+def run_switch(shard, acc):
+    """psutil imported on an A-field kernel, then PROCFS_PATH pointed at a B-field procfs (first call there is the per-CPU
+    form), then back to A, then to B again: every answer must carry the counters of the procfs it was read from."""
+    nfa, nfb = shard["a"], shard["b"]
+    env = setup(nfa)
+    ps, vk, vkernel = env["ps"], env["vk"], env["vkernel"]
+    from vlib.proctable import ProcTable
+    snapb = [[1000 + 10 * c + i for i in range(nfb)] for c in range(3)]
+    tb = ProcTable()
+    tb.cpu_lines = lambda: render(snapb)[:render(snapb).index(b"intr")]
+    tb.spawn(1, 1, ppid=0, comm=b"init")
+    vk.mount("/vprocB", tb)
+    snapa = env["st"].snap
+    names_all = ["user", "nice", "system", "idle", "iowait", "irq", "softirq", "steal", "guest", "guest_nice"]
+    viols = []
+
+    def check(where, path, snap, nf, percpu_first):
+        ps.PROCFS_PATH = path
+        order = ("percpu", "total") if percpu_first else ("total", "percpu")
+        for form in order:
+            acc.count("cpu_times_checked")
+            acc.count("procfs_switch_calls_checked")
+            try:
+                got = ps.cpu_times(percpu=(form == "percpu"))
+            except Exception as e:  # noqa: BLE001
+                viols.append((f"cpu_times_exception:{type(e).__name__}:after_procfs_switch", f"{where}: cpu_times({form}) on a {nf}-field procfs raised {e!r}"))
+                continue
+            rows = got if form == "percpu" else [got]
+            want_rows = snap if form == "percpu" else [agg(snap)]
+            for row, w in zip(rows, want_rows):
+                if tuple(row._fields) != tuple(names_all[:nf]) or [round(v * CLK) for v in row] != list(w):
+                    viols.append(("cpu_times_wrong:after_procfs_switch", f"{where}: cpu_times({form}) on a {nf}-field procfs -> {row!r} want ticks {w}"))
+                    break
+        # (cpu_percent() right after a switch would compare samples of two different machines: not asserted)
+    with vk:
+        try:
+            check("first visit of B", "/vprocB", snapb, nfb, True)
+            check("back to A", "/proc", snapa, nfa, True)
+            check("B again", "/vprocB", snapb, nfb, False)
+            check("A again", "/proc", snapa, nfa, False)
+        finally:
+            ps.PROCFS_PATH = "/proc"
+    acc.case(dict(kind="switch", a=nfa, b=nfb), True, viols)
+
+
 def plan(tier, seed):
     n = 3000 if tier == "quick" else 120000
     shards = []
@@ -423,6 +470,10 @@ def plan(tier, seed):
     for nf in (7, 8, 9, 10):
         for s, c in harness.split_range(n, per):
             shards.append(dict(kind="gen", nf=nf, seed=seed, start=s, count=c))
+    for a in (7, 8, 9, 10):
+        for b in (7, 8, 9, 10):
+            if a != b:
+                shards.append(dict(kind="switch", a=a, b=b))
     return shards
 
 
@@ -438,7 +489,12 @@ def run_shard(shard):
             else:
                 run_case(gen_case(rng, shard["nf"]), acc)
         acc.count(f"cases_nf{shard['nf']}", acc.evals)
+    elif k == "switch":
+        run_switch(shard, acc)
     elif k == "cases":
+        if shard["cases"] and shard["cases"][0].get("kind") == "switch":
+            run_switch(shard["cases"][0], acc)
+            return acc.result()
         nf = shard.get("variant") or next((c["nf"] for c in shard["cases"] if "nf" in c), 10)
         setup(nf)
         for case in shard["cases"]:
